@@ -7440,8 +7440,9 @@ class FrameHE(Frame):
     def __hash__(self) -> int:
         if not hasattr(self, '_hash'):
             self._hash = hash((
-                    tuple(self.index.values),
-                    tuple(self.columns.values),
+                    # NOTE: iterate labels rather than values, as the values of an IndexHierarchy are rows of a 2D array and not hashable
+                    tuple(self.index),
+                    tuple(self.columns),
                     # tuple(dt.str for dt in self._blocks.dtypes)
                     ))
         return self._hash
